@@ -692,3 +692,20 @@ package vm
 //@ func (*exceptionHandlingContext).HasFinally
 //@ requires c != nil
 //@ ensures[present] result == (c.FinallyOffset >= 0)
+
+// ================= splice: LEFT / RIGHT =================
+// (C12) a substring instruction never allocates more than the byte string it cuts from: the length
+// operand is checked against the string before the result buffer is made.
+//@ prop C12,C13
+//@ cases (*VM).execute
+//@ case LEFT
+//@ may-panic
+//@ opt frame off
+//@ requires op == opcode.LEFT && v.getPrice == nil && wfStack(v.estack) && depth(v) >= 2 && is(item(v, 1), *stackitem.ByteArray) && len(*item(v, 1).(*stackitem.ByteArray)) <= stackitem.MaxSize
+//@ opt alloc-bound 131070
+//@ case RIGHT
+//@ may-panic
+//@ opt frame off
+//@ requires op == opcode.RIGHT && v.getPrice == nil && wfStack(v.estack) && depth(v) >= 2 && is(item(v, 1), *stackitem.ByteArray) && len(*item(v, 1).(*stackitem.ByteArray)) <= stackitem.MaxSize
+//@ opt alloc-bound 131070
+//@ prop C13
